@@ -74,10 +74,10 @@ TEXTS = {
         "technique": "Lean 4 theorems about an executable model of the element tree / path index / reverse reference map and its editing "
                      "operations; differential run of the model against the library on operation histories with full state dumps; direct "
                      "property oracle on the library",
-        "level_text": "Proved for all map contents: registering a referrer appends exactly it to its path's list and leaves all other lists alone; lookup returns what is stored. The invariant `lists = reference elements with that text` and the report/resolve equivalence are checked after every request by the dump comparison (all keys via hook H1) and by the oracle on the real library.",
-        "level_note": "Trusted: Lean kernel; axioms propext, Classical.choice, Quot.sound; the hand model is tied to the Rust code by the "
-                      "correspondence run only (244 of 300 quick histories are compared to the end, the others up to the first file-set "
-                      "operation / move between models). " + 'Partial: the invariant over all histories is not yet a theorem.',
+        "level_text": 'Proved, as an invariant by induction over operations with no bound on the history (C05_referrers_exact_reachable): in every state reachable by any guarded history (the guards of C04) of the 17 core operations of the step function the driver runs — incl. set_character_data / remove_character_data on reference elements, removal of subtrees that hold references, remove_from_file / remove_file — in every model, an element is listed as referrer of a path exactly once if it is a reference element of the tree whose text is that path and not at all otherwise; no empty list, keys pairwise different. Two auxiliary invariants forced by the proof are proved alongside (a reference element has no child elements; the root keeps the root type). The facts needed about reference types are checked on the regenerated tables by kernel evaluation (C05_real_tables, 1145 reference types). Also proved for all map contents: the map as a multiset under add / remove / fix, and the rewriting loop of set_item_name on the whole map (moved lists are merged onto existing keys, nothing dropped).',
+        "level_note": "Trusted: Lean kernel; axioms propext, Classical.choice, Quot.sound; the hand model (the step function applyOp) is tied to the Rust code by the "
+                      "correspondence run only (the driver answers the requests with applyOp; every dump holds every key of the reverse map via hook H1). "
+                      + 'Partial: set_item_name, move, copy, set_reference_target and loading are outside the proved alphabet; the invalid-reference report / resolve equivalence is decided by correspondence + oracle, not by a theorem.',
     },
     "C06": {
         "design_ref": "DESIGN.md §8 C06, §4.2",
